@@ -27,6 +27,7 @@ const (
 	keyFullSyncLeaders = "C16/fullsync-leaders-not-reset"
 	keyResetPersist    = "C16/reset-not-persisted"
 	keyReloadLeaders   = "C16/restart-sync-reload-drops-leaders"
+	keyOverMsgSize     = "C16/response-over-msgsize-never-delivered"
 
 	flushInterval = 100 // the statement's "flush interval of 100 records"
 )
@@ -467,4 +468,23 @@ func TestFinding_broadcast_unbinds_reconnected_stream(t *testing.T) {
 		return
 	}
 	vkit.Finding(t, keyUnbind, reproduced, detail)
+}
+
+// TestFinding_response_over_msgsize_never_delivered: fresh leader, 2800 changes of regions with
+// 2000-byte keys recorded before the follower connects: the catch-up from index 0 is ONE response
+// of about 9.6 MB, above the follower's receive limit msgSize (8 MiB).
+func TestFinding_response_over_msgsize_never_delivered(t *testing.T) {
+	defer cleanups.Wait() // fixtures are torn down in the background
+	c := SCase{RegionStorage: true, KeyPad: 2000, Bulk: 2800, BulkWhere: "pre"}
+	for i := 0; i < 6; i++ {
+		c.Regions = append(c.Regions, Reg{Store: uint64(i%6) + 1, NPeers: 3, Leader: i % 3, Flow: [4]uint64{1, 2, 3, 4}})
+	}
+	c.BulkBodies = []Reg{{Leader: 1, Flow: [4]uint64{5, 6, 7, 8}}}
+	res := execSync(c, false)
+	if res.inconclusive != "" {
+		t.Logf("probe inconclusive: %s", res.inconclusive)
+		return
+	}
+	vkit.Finding(t, keyOverMsgSize, res.rejected != "" && res.maxBytes > msgSize,
+		fmt.Sprintf("follower 2800 records behind, regions with 2000-byte keys: one catch-up response of %d bytes; %s", res.maxBytes, res.firstDiff("stream")))
 }
